@@ -7,6 +7,8 @@ Line-protocol driver for C02 (the same `RayMarch.interact` the theorems are abou
   blk  ax ay az sx sy sz nx ny nz        block: anchor, side lengths (doubles as bit patterns), cells
   cells m mul add (n xH xHe){m}           cell c holds palette entry ((c*mul+add) mod m)
   pkt  px py pz dx dy dz tau sH sHe sX w nu inDir id ex   (id: serial number, ex: exactness flag; both ignored)
+  prp  (same fields)   `propagate` instead of `interact`
+  cod  (same fields)   `compute_optical_depth`
 
 Default mode: `Float` instantiation, answers compared with the C++ harness.
 Mode `rat` (first command line argument): the exact `Rat` instantiation on the exact values of
@@ -50,7 +52,7 @@ def showVisit (v : Visit Float) : String :=
 
 /-- branch tags of one packet: recomputed by walking the same `geo`/`step` stages -/
 def tagsF (b : Block Float) (cells : Nat → Cell Float) (ph : Photon Float) (inDir : Nat)
-    (r : Result Float) : List String :=
+    (s0 : St Float) (r : Result Float) : List String :=
   let kinds := [idxKind inDir .x, idxKind inDir .y, idxKind inDir .z]
   let npin := (kinds.filter (· != 0)).length
   let entry := match npin with | 0 => "in-inside" | 1 => "in-face" | 2 => "in-edge" | _ => "in-corner"
@@ -78,7 +80,7 @@ def tagsF (b : Block Float) (cells : Nat → Cell Float) (ph : Photon Float) (in
         let t2 := if g.tau == 0.0 then ["tau0"] else []
         walk f (step b cells ph s) (if acc.contains t then t2 ++ acc else t :: t2 ++ acc)
       else acc
-  let steps := walk (fuel b.n) (initSt b ph inDir) []
+  let steps := walk (fuel b.n) s0 []
   ([entry, stat, exit] ++ neg ++ pos ++ nv ++ zero ++ steps).eraseDups
 
 def stepF (s : DSt Float) : List String → DSt Float × String
@@ -99,8 +101,27 @@ def stepF (s : DSt Float) : List String → DSt Float × String
       let cells := cellsOf fZeroCell s
       let r := interact s.blk cells ph inDir
       let vs := String.join (r.visits.map showVisit)
-      let tags := ",".intercalate (tagsF s.blk cells ph inDir r)
+      let tags := ",".intercalate (tagsF s.blk cells ph inDir (initSt s.blk ph inDir) r)
       (s, s!"pkt out={r.outDir} fin={if r.finished then 1 else 0} pos={showV r.pos} tau={showF r.tauLeft} nv={r.visits.length}{vs} #{tags}")
+    | none => (s, "bad-op")
+  | "prp" :: rest =>
+    match parsePhoton fOfBits (rest.map nat!) with
+    | some (ph, inDir) =>
+      let cells := cellsOf fZeroCell s
+      let r := propagate s.blk cells ph inDir
+      let tags := ",".intercalate ((tagsF s.blk cells ph inDir (initStNoPin s.blk ph inDir) r).map ("prp-" ++ ·))
+      (s, s!"prp out={r.outDir} fin={if r.finished then 1 else 0} pos={showV r.pos} tau={showF r.tauLeft} #{tags}")
+    | none => (s, "bad-op")
+  | "cod" :: rest =>
+    match parsePhoton fOfBits (rest.map nat!) with
+    | some (ph, inDir) =>
+      let cells := cellsOf fZeroCell s
+      let r := computeOpticalDepth s.blk cells ph inDir
+      let np := r.last.out.length
+      let exit := if r.outDir ≤ 0 then "cod-out-invalid" else if r.outDir ≤ 8 then "cod-out-corner"
+        else if r.outDir ≤ 20 then "cod-out-edge" else "cod-out-face"
+      let pc := if np == 0 then "cod-passes0" else if np == 1 then "cod-passes1" else "cod-passes2+"
+      (s, s!"cod out={r.outDir} fin={if r.finished then 1 else 0} pos={showV r.pos} tau={showF r.tau} #{exit},{pc}")
     | none => (s, "bad-op")
   | _ => (s, "bad-op")
 
@@ -127,8 +148,7 @@ def near (a b : Rat) : Bool := decide (qabs (a - b) ≤ ulp4 * (if qabs a < qabs
 def kappa (c : Cell Rat) (ph : Photon Rat) : Rat := c.n * (ph.sigH * c.xH + ph.sigHe * c.xHe)
 
 /-- near ties along the exact run -/
-def tiesQ (b : Block Rat) (cells : Nat → Cell Rat) (ph : Photon Rat) (inDir : Nat) : Bool :=
-  let s0 := initSt b ph inDir
+def tiesQ (b : Block Rat) (cells : Nat → Cell Rat) (ph : Photon Rat) (inDir : Nat) (s0 : St Rat) : Bool :=
   let startTie := [Ax.x, Ax.y, Ax.z].any fun a =>
     idxKind inDir a == 0 &&
       (let x := s0.pos.get a * b.inv.get a
@@ -147,9 +167,8 @@ def tiesQ (b : Block Rat) (cells : Nat → Cell Rat) (ph : Photon Rat) (inDir : 
   startTie || walk (fuel b.n) s0
 
 /-- the statements of the C02 theorems evaluated exactly on this instance -/
-def exactChecks (b : Block Rat) (cells : Nat → Cell Rat) (ph : Photon Rat) (inDir : Nat)
+def exactChecks (b : Block Rat) (cells : Nat → Cell Rat) (ph : Photon Rat) (s0 : St Rat)
     (r : Result Rat) : List String :=
-  let s0 := initSt b ph inDir
   let S := r.visits.foldl (fun acc v => acc + v.path) 0
   let T := r.visits.foldl (fun acc v => acc + kappa (cells v.cell.toNat) ph * v.path) 0
   let axes := [Ax.x, Ax.y, Ax.z]
@@ -174,6 +193,49 @@ def exactChecks (b : Block Rat) (cells : Nat → Cell Rat) (ph : Photon Rat) (in
     then [] else ["exit_geometric"]
   c1 ++ c2 ++ c3 ++ c4 ++ c5 ++ c6
 
+/-- exit geometry of a final state outside the block (`exit_facts`) -/
+def exitOK (b : Block Rat) (ph : Photon Rat) (last : St Rat) : Bool :=
+  [Ax.x, Ax.y, Ax.z].all fun a =>
+    let i := last.idx.get a
+    let p := last.pos.get a
+    let d := ph.dir.get a
+    if i < 0 then p == 0 && decide (d < 0)
+    else if i ≥ (b.n.get a : Int) then p == top b a && decide (0 < d)
+    else decide (0 ≤ p) && decide (p ≤ top b a) && (decide (d ≤ 0) || decide (p < top b a)) && (decide (0 ≤ d) || decide (0 < p))
+
+/-- the statement of `cod_spec` evaluated exactly on this instance -/
+def exactChecksCod (b : Block Rat) (cells : Nat → Cell Rat) (ph : Photon Rat) (s0 : St Rat)
+    (r : CodResult Rat) : List String :=
+  let vs := r.last.out.reverse
+  let S := vs.foldl (fun acc v => acc + v.path) 0
+  let T := vs.foldl (fun acc v => acc + kappa (cells v.cell.toNat) ph * v.path) 0
+  let axes := [Ax.x, Ax.y, Ax.z]
+  (if r.finished then [] else ["fuel"]) ++
+  (if r.tau == ph.tau + T then [] else ["cod_tau"]) ++
+  (if axes.all (fun a => r.last.pos.get a == s0.pos.get a + S * ph.dir.get a) then [] else ["path_sum"]) ++
+  (if vs.all (fun v => decide (0 ≤ v.path)) then [] else ["path_nonneg"]) ++
+  (if 1 ≤ r.outDir && r.outDir < 27 && exitOK b ph r.last then [] else ["exit_geometric"])
+
+/-- the HYPOTHESES of the theorems (`Valid` and `Start` / `StartNoPin`) evaluated exactly on this
+input: the list of the premises that do NOT hold (empty = the theorems apply to this input) -/
+def premisesQ (b : Block Rat) (pal : Array (Cell Rat)) (ph : Photon Rat) (inDir : Nat) (pin : Bool) :
+    List String :=
+  let axes := [Ax.x, Ax.y, Ax.z]
+  let rel := fun a => ph.pos.get a - b.anchor.get a
+  (if axes.all (fun a => decide (0 < b.cs.get a) && decide (0 < b.n.get a)) then [] else ["cs_pos"]) ++
+  (if axes.any (fun a => ph.dir.get a != 0) then [] else ["moving"]) ++
+  (if axes.all (fun a => ph.dir.get a == 0 || decide (b.cs.get a < dblMax * qabs (ph.dir.get a))) then [] else ["big"]) ++
+  (if pal.all (fun c => decide (0 ≤ kappa c ph)) then [] else ["kappa_nonneg"]) ++
+  (if 0 < ph.tau then [] else ["tau_pos"]) ++
+  (if inDir < 27 then [] else ["dir_ok"]) ++
+  (if axes.all (fun a => b.inv.get a * b.cs.get a == 1) then [] else ["inv_ok"]) ++
+  (if axes.all (fun a => idxKind inDir a != 0 || (decide (0 ≤ rel a) && decide (rel a ≤ top b a))) then [] else ["start_computed"]) ++
+  (if pin then [] else
+    (if axes.all (fun a => idxKind inDir a != 1 || (decide (0 ≤ rel a) && decide (rel a ≤ b.cs.get a))) then [] else ["start_lower"]) ++
+    (if axes.all (fun a => idxKind inDir a != 2 || (decide (top b a - b.cs.get a ≤ rel a) && decide (rel a ≤ top b a))) then [] else ["start_upper"]))
+
+def showL (l : List String) : String := if l.isEmpty then "ok" else ",".intercalate l
+
 def stepQ (s : DSt Rat) : List String → DSt Rat × String
   | "blk" :: rest =>
     match rest.map nat! with
@@ -191,11 +253,37 @@ def stepQ (s : DSt Rat) : List String → DSt Rat × String
     | some (ph, inDir) =>
       let cells := cellsOf qZeroCell s
       let r := interact s.blk cells ph inDir
-      let tie := tiesQ s.blk cells ph inDir
-      let bad := exactChecks s.blk cells ph inDir r
+      let tie := tiesQ s.blk cells ph inDir (initSt s.blk ph inDir)
+      let bad := exactChecks s.blk cells ph (initSt s.blk ph inDir) r
+      let prem := premisesQ s.blk s.pal ph inDir true
       let vs := String.join (r.visits.map fun v => s!" v {v.cell} {showF (ratToFloat v.path)}")
       let pos := s!"{showF (ratToFloat r.pos.x)} {showF (ratToFloat r.pos.y)} {showF (ratToFloat r.pos.z)}"
-      (s, s!"pkt out={r.outDir} fin={if r.finished then 1 else 0} pos={pos} tau={showF (ratToFloat r.tauLeft)} nv={r.visits.length}{vs} tie={if tie then 1 else 0} exact={if bad.isEmpty then "ok" else ",".intercalate bad}")
+      (s, s!"pkt out={r.outDir} fin={if r.finished then 1 else 0} pos={pos} tau={showF (ratToFloat r.tauLeft)} nv={r.visits.length}{vs} tie={if tie then 1 else 0} hyp={showL prem} exact={showL bad}")
+    | none => (s, "bad-op")
+  | "prp" :: rest =>
+    match parsePhoton qOfBits (rest.map nat!) with
+    | some (ph, inDir) =>
+      let cells := cellsOf qZeroCell s
+      let s0 := initStNoPin s.blk ph inDir
+      let r := propagate s.blk cells ph inDir
+      let tie := tiesQ s.blk cells ph inDir s0
+      let bad := exactChecks s.blk cells ph s0 r
+      let prem := premisesQ s.blk s.pal ph inDir false
+      let pos := s!"{showF (ratToFloat r.pos.x)} {showF (ratToFloat r.pos.y)} {showF (ratToFloat r.pos.z)}"
+      (s, s!"prp out={r.outDir} fin={if r.finished then 1 else 0} pos={pos} tau={showF (ratToFloat r.tauLeft)} tie={if tie then 1 else 0} hyp={showL prem} exact={showL bad}")
+    | none => (s, "bad-op")
+  | "cod" :: rest =>
+    match parsePhoton qOfBits (rest.map nat!) with
+    | some (ph, inDir) =>
+      let cells := cellsOf qZeroCell s
+      let s0 := initStNoPin s.blk ph inDir
+      let r := computeOpticalDepth s.blk cells ph inDir
+      -- ties of the free march: those of a march whose target is never reached
+      let tie := tiesQ s.blk cells { ph with tau := r.tau + 1 } inDir s0
+      let bad := exactChecksCod s.blk cells ph s0 r
+      let prem := premisesQ s.blk s.pal ph inDir false
+      let pos := s!"{showF (ratToFloat r.pos.x)} {showF (ratToFloat r.pos.y)} {showF (ratToFloat r.pos.z)}"
+      (s, s!"cod out={r.outDir} fin={if r.finished then 1 else 0} pos={pos} tau={showF (ratToFloat r.tau)} tie={if tie then 1 else 0} hyp={showL prem} exact={showL bad}")
     | none => (s, "bad-op")
   | _ => (s, "bad-op")
 
